@@ -385,6 +385,54 @@ def label_after_wipe(ctx):
     ctx.floor(n, 1, "writers of the stored source")
 
 
+def optional_timestamp(ctx):
+    """`timestamp` is optional state: the three `__getstate__` of memory.py store None for it (so that pickling a cached
+    function does not change its hash), and `load_item(timestamp=None)` defaults to None. A wrapper that went through
+    pickle (every cached function shipped to a worker) therefore carries None: arithmetic on it without an `is not None`
+    guard raises TypeError - inside `load_item` that turns every hit into a recomputation, inside the load-failure handler
+    of `_cached_call` it turns 'damaged entry => recompute' into an exception."""
+    nones = 0
+    for q in ("MemorizedResult.__getstate__", "MemorizedFunc.__getstate__", "Memory.__getstate__"):
+        f = M(ctx, q)
+        for a in nodes_of_type(f, ast.Assign):
+            if any(isinstance(t, ast.Subscript) and const_value(t.slice) == "timestamp" for t in a.targets) and is_const(a.value, None):
+                nones += 1
+    ctx.need(nones >= 1, "no __getstate__ resets the timestamp to None any more: the premise of the clause is gone")
+    n = 0
+    for rel in (MEM, SB):
+        for (_r, q, f) in ctx.repo.all_functions(lambda r, rel=rel: r == rel):
+            g = None
+            for b in [x for x in walk_local(f) if isinstance(x, ast.BinOp)]:
+                ops = [o for o in (b.left, b.right) if (dotted(o) or "").split(".")[-1] == "timestamp"]
+                if not ops:
+                    continue
+                if isinstance(parent(b), ast.BinOp) and False:
+                    continue
+                n += 1
+                e = unparse(ops[0])
+                guarded = False
+                child = b
+                for a_ in ancestors(b):
+                    if isinstance(a_, ast.IfExp):
+                        t = unparse(a_.test)
+                        if (child is a_.body and t == "%s is not None" % e) or (child is a_.orelse and t == "%s is None" % e):
+                            guarded = True
+                    if isinstance(a_, ast.BoolOp) and isinstance(a_.op, ast.And) and any(unparse(v_) == "%s is not None" % e for v_ in a_.values[:a_.values.index(child)] if child in a_.values):
+                        guarded = True
+                    if isinstance(a_, ast.stmt):
+                        break
+                    child = a_
+                if not guarded:
+                    g = g or cfg_of(f)
+                    st = enclosing_stmt(b)
+                    facts = {(str(t), p_) for (t, p_) in g.fact_set(g.nodes_of(st))}
+                    guarded = ("%s is None" % e, False) in facts
+                ctx.check(guarded, b, "arithmetic on the optional %s is guarded by `is not None`" % e,
+                          "`%s` is computed without testing `%s is not None`: a cached function that went through pickle carries timestamp None, so this raises TypeError "
+                          "(in load_item: every hit is recomputed; in a failure handler: the call raises instead of recomputing)" % (unparse(b, 60), e))
+    ctx.floor(n, 1, "arithmetic uses of the optional timestamp")
+
+
 def invalidate_order(ctx):
     """Invalidation is crash-safe: the function's entries are wiped BEFORE the new source is published
     (a kill in between leaves 'no source' => rewrite + miss, never 'new source + entries of the old code')."""
@@ -419,19 +467,43 @@ def invalidate_order(ctx):
         ctx.check(dotted(c.args[0]) == clr.args.args[1].arg, c, "the location itself is removed")
 
 
+def _lazy_sites(fn, c):
+    """where the call `c` (or the function handed to map()/filter() by the call `c`) is really evaluated: a call written
+    inside a generator expression, or applied by map()/filter(), runs where the lazy object is CONSUMED - if that object is
+    bound to a name, at the uses of the name"""
+    tops = [a for a in ancestors(c) if isinstance(a, ast.GeneratorExp)]
+    top = tops[-1] if tops else (c if call_name(c) in ("map", "filter") else None)
+    if top is None:
+        return [c], ""
+    pst = parent(top)
+    if isinstance(pst, ast.Assign) and len(pst.targets) == 1 and isinstance(pst.targets[0], ast.Name):
+        v_ = pst.targets[0].id
+        uses = [n for n in ast.walk(fn) if isinstance(n, ast.Name) and n.id == v_ and isinstance(n.ctx, ast.Load)]
+        if uses:
+            return uses, " (lazily, where `%s` is consumed)" % v_
+    return [top], ""
+
+
 def delete_tolerant(ctx):
     gi = S(ctx, "FileSystemStoreBackend.get_items")
     n = 0
+    STAT = ("os.path.getatime", "os.path.getsize")
     for c in calls_in(gi):
-        if call_name(c) in ("os.path.getatime", "os.path.getsize"):
-            n += 1
+        nm = call_name(c)
+        if nm in ("map", "filter") and c.args and dotted(c.args[0]) in STAT:
+            nm = dotted(c.args[0])
+        elif nm not in STAT:
+            continue
+        n += 1
+        sites_, how = _lazy_sites(gi, c)
+        for site in sites_:
             ok = False
-            for a in ancestors(c):
-                if isinstance(a, ast.Try) and in_block(c, a.body) and any(handler_catches(h, ["OSError"]) and not any(isinstance(x, ast.Raise) for s in h.body for x in walk_local(s)) for h in a.handlers):
+            for a in ancestors(site):
+                if isinstance(a, ast.Try) and in_block(site, a.body) and any(handler_catches(h, ["OSError"]) and not any(isinstance(x, ast.Raise) for s in h.body for x in walk_local(s)) for h in a.handlers):
                     ok = True
                 if isinstance(a, ast.FunctionDef):
                     break
-            ctx.check(ok, c, "%s of a possibly vanished entry is tolerated" % call_name(c), "%s is not protected against a vanished entry" % call_name(c))
+            ctx.check(ok, site, "%s of a possibly vanished entry is tolerated%s" % (nm, how), "%s%s is not protected against a vanished entry" % (nm, how))
     ctx.floor(n, 3, "stat calls in get_items")
     cl = S(ctx, "FileSystemStoreBackend.clear_location")
     rm = [c for c in calls_in(cl) if call_name(c) == "shutil.rmtree"]
@@ -580,6 +652,12 @@ def raw_sites(ctx):
                 cn = call_name(c)
                 ext = ctx.res.ext_name(c.func) if cn else None
                 kind = None
+                if cn in ("map", "filter") and c.args and dotted(c.args[0]):
+                    ext_f = ctx.res.ext_name(c.args[0])
+                    if ext_f in RAISING_EXT:
+                        for u in _lazy_sites(fn, c)[0]:
+                            out.append((u, RAISING_EXT[ext_f], ext_f + " (applied lazily by %s(), where its result is consumed)" % cn))
+                        continue
                 if cn in RAISING_SELF:
                     kind = (RAISING_SELF[cn], cn)
                 elif ext in RAISING_EXT:
